@@ -123,7 +123,7 @@ sent (once), each of the `N` requests has been sent exactly once (none twice: "n
 missing), and nothing is left pending or in the queues.  (Invariant over the operation list, no bound on
 its length: `Proofs/Lemmas/CrashSeq.lean`.) -/
 theorem crash_safe_task_sequences (N : Nat) (ops : List Op) (c : Cfg)
-    (hr : run Quirks.none (init (tasks N)) (ops.map (fun o => (o, none))) = some c) :
+    (hr : Crash.run Quirks.none (init (tasks N)) (ops.map (fun o => (o, none))) = some c) :
     ∃ nextId sent running, drain Quirks.none (mu c) c = cfgEnd nextId sent running ∧
       sent.Nodup ∧ sent.length = N ∧
       observe (drain Quirks.none (mu c) c) =
@@ -137,7 +137,7 @@ open Asl.Crash in
 theorem crash_free_task_sequences (N : Nat) :
     ∃ nextId sent running, drain Quirks.none (mu (init (tasks N))) (init (tasks N)) = cfgEnd nextId sent running ∧
       sent.Nodup ∧ sent.length = N := by
-  obtain ⟨a, b, c, h1, h2, h3, _⟩ := crash_safe_task_sequences N [] (init (tasks N)) (by simp [run])
+  obtain ⟨a, b, c, h1, h2, h3, _⟩ := crash_safe_task_sequences N [] (init (tasks N)) (by simp [Crash.run])
   exact ⟨a, b, c, h1, h2, h3⟩
 
 /-! ### (ii) each quirk breaks it: the formal counterparts of the open findings C04-F1, C04-F2, C04-F4
@@ -150,7 +150,7 @@ open Asl.Crash
 def nc (op : Op) : Op × Option Nat := (op, none)
 /-- does the run get stuck? (`none`: the schedule is not executable) -/
 def stuckAfter (q : Quirks) (sk : Sk) (sched : Sched) : Option Bool :=
-  (run q (init sk) sched).map (fun c => stuck (drain q 200 c))
+  (Crash.run q (init sk) sched).map (fun c => stuck (drain q 200 c))
 def par2 : Sk := .par 0 (.cons (.task .done) (.cons (.task .done) .nil)) (.step .done)
 def nested : Sk := .par 0 (.cons (.par 0 (.cons (.step .done) .nil) .done) (.cons (.task .done) .nil)) .done
 /-- the Task's event is delivered, the engine dies before the deferred handler sends the request -/
@@ -208,7 +208,7 @@ is harmless: `runW` refuses the first schedule and accepts the second -/
 theorem window_is_tight :
     runW qF1 (init (tasks 1)) [.ev 0, .crash] = none ∧
     (runW qF1 (init (tasks 1)) [.ev 0, .tm 0, .crash]).isSome = true ∧
-    (run qF1 (init (tasks 1)) [nc (.ev 0)]).map inWindow = some true := by decide +kernel
+    (Crash.run qF1 (init (tasks 1)) [nc (.ev 0)]).map inWindow = some true := by decide +kernel
 
 /-! non-vacuity -/
 example : ((BQ.run [.publish 1, .publish 2, .deliver, .deliver, .ack 1, .publish 3]).step .crash).ready
